@@ -442,6 +442,34 @@ pub fn run(a: &Args) -> Option<Report> {
         };
         let subscriber = tracing_subscriber::registry().with(MetricsLayer::new());
         let dispatch = Dispatch::new(subscriber);
+        // half of the cases start with an emission inside a span under a subscriber that has no MetricsLayer (on another
+        // thread, through the same recorder): the key is unchanged there, and nothing of it may carry over
+        if r.chance(1, 2) {
+            let plain = Dispatch::new(tracing_subscriber::registry());
+            let rec_ref: &(dyn Recorder + Send + Sync) = &*rec;
+            let log2 = log.clone();
+            let bad = std::thread::scope(|sc| {
+                sc.spawn(move || {
+                    tracing::dispatcher::with_default(&plain, || {
+                        let sp = span!(Level::INFO, "no_layer", user = "nobody");
+                        let _ = doubles::take_log(&log2);
+                        sp.in_scope(|| {
+                            let _ = rec_ref.register_counter(&Key::from_parts("m", vec![Label::new("own", "1")]), &MD);
+                        });
+                        let got = doubles::take_log(&log2);
+                        match got.first().map(|e| &e.op) {
+                            Some(Op::Register { key, .. }) if got.len() == 1 => key.labels != vec![("own".to_string(), "1".to_string())],
+                            _ => true,
+                        }
+                    })
+                })
+                .join()
+                .unwrap_or(true)
+            });
+            if bad {
+                rep.violation("C17:key-changed-without-span", jo! {"what" => "an emission inside a span of a subscriber without MetricsLayer did not reach the inner recorder exactly once with its key unchanged"});
+            }
+        }
         let nthreads = 1 + r.usize(3);
         let mut scripts = Vec::new();
         for _ in 0..nthreads {
